@@ -376,13 +376,13 @@ pub fn panic_site(msg: &str) -> String {
 // canonical dump (mirror of `dump` in lean/Driver/Expr.lean)
 
 struct Dumper {
-    ids: Vec<*const std::sync::Mutex<Data>>,
+    ids: Vec<usize>,
     cells: Vec<String>,
 }
 
 impl Dumper {
     fn visit(&mut self, a: &DataArc) -> String {
-        let p = Arc::as_ptr(&a.arc);
+        let p = Arc::as_ptr(&a.arc) as *const u8 as usize;
         let k = match self.ids.iter().position(|x| *x == p) {
             Some(k) => k,
             None => {
